@@ -10,6 +10,7 @@ import (
 	"os"
 	"sort"
 	"sync"
+	"sync/atomic"
 )
 
 // Case is one observed call, recorded so that it can be replayed exactly.
@@ -60,6 +61,10 @@ type Shard struct {
 	MaxCase    map[string]Case
 	Incon      map[string]int64
 	index      int64
+
+	// Progress counts evaluations for the stall monitor (read from another goroutine).
+	Progress atomic.Int64
+	Done     atomic.Bool
 }
 
 func NewShard(id int, phase string) *Shard {
@@ -74,6 +79,7 @@ func (s *Shard) Next() int64 { s.index++; return s.index }
 // arguments) for distinct counting; nontrivial follows the property's rule.
 func (s *Shard) Eval(hash uint64, nontrivial bool) {
 	s.Evals++
+	s.Progress.Add(1)
 	if nontrivial {
 		s.nontrivial = append(s.nontrivial, hash)
 	}
@@ -173,6 +179,7 @@ type Result struct {
 	CoverFuncs      []string           `json:"cover_funcs,omitempty"`
 	Internal        string             `json:"internal_error,omitempty"`
 	Completed       bool               `json:"completed"`
+	Stalled         string             `json:"stalled,omitempty"` // a shard made no progress for the stall limit: no verdict
 }
 
 // Target is a coverage floor over cell names: the run is inconclusive unless at
